@@ -202,4 +202,143 @@ theorem remEuclid_rounded (sa sb : Bool) (ma mb : Nat) (ea eb : Int)
       rw [e, roundDyadic_of_canonical false m k h2 h4 h3]
       simp
 
+/-! ### `trunc` -/
+
+theorem Rounded.no_overflow {N den m k m' k' : Nat} (h : Rounded N den m k)
+    (he : m * 2 ^ k = m' * 2 ^ k') (hm' : m' < 2 ^ 53) (hk' : k' ≤ 2045) : k ≤ 2045 := by
+  by_contra hc
+  have hk2 : 2046 ≤ k := by omega
+  have hm : 2 ^ 52 ≤ m := by
+    rcases h.normal_or_sub with h' | h'
+    · exact h'
+    · omega
+  have h1 : 2 ^ 52 * 2 ^ 2046 ≤ m * 2 ^ k :=
+    Nat.mul_le_mul hm (Nat.pow_le_pow_right (by omega) hk2)
+  have h2 : m' * 2 ^ k' < 2 ^ 53 * 2 ^ k' :=
+    Nat.mul_lt_mul_of_pos_right hm' (Nat.two_pow_pos _)
+  have h3 : 2 ^ 53 * 2 ^ k' ≤ 2 ^ 53 * 2 ^ 2045 :=
+    Nat.mul_le_mul_left _ (Nat.pow_le_pow_right (by omega) hk')
+  have h4 : 2 ^ 53 * 2 ^ 2045 = 2 ^ 52 * 2 ^ 2046 := by rw [← Nat.pow_add, ← Nat.pow_add]
+  omega
+
+theorem trunc_fin (s : Bool) (m : Nat) (e : Int) :
+    trunc (.fin s m e) = roundDyadic s (m * 2 ^ e.toNat / 2 ^ (-e).toNat) 1 := by
+  show roundScaled s (m * 2 ^ e.toNat / 2 ^ (-e).toNat) 0 = _
+  unfold roundScaled
+  have e0 : (0 : Int).toNat = 0 := rfl
+  have e0' : (-(0 : Int)).toNat = 0 := rfl
+  rw [e0, e0', Nat.pow_zero, Nat.mul_one]
+
+/-- **`trunc`.** For a representable operand `f64::trunc` is exact: the result is the canonical
+float whose value is the integer `⌊|x|⌋` (`|x.num| / x.den`, natural-number division) with the
+sign of `x` (also for a zero result: `trunc(-0.5) = -0.0`). -/
+theorem trunc_fin_exact (s : Bool) (m : Nat) (e : Int) (hx : IsF64 (.fin s m e)) :
+    ∃ m2 k2 : Nat, trunc (.fin s m e) = .fin s m2 ((k2 : Int) - 1074) ∧
+      m2 * 2 ^ k2 = ((F64.fin s m e).num.natAbs / (F64.fin s m e).den) * 2 ^ 1074 ∧
+      m2 < 2 ^ 53 ∧ (2 ^ 52 ≤ m2 ∨ k2 = 0) ∧ k2 ≤ 2045 := by
+  obtain ⟨hm, he1, he2⟩ := hx
+  rw [natAbs_num_fin, den_fin]
+  rw [trunc_fin]
+  generalize hn : m * 2 ^ e.toNat / 2 ^ (-e).toNat = n
+  obtain ⟨m2, k2, hR, heq⟩ := roundDyadic_spec s n 1 (by omega)
+  -- a 53-bit representation of n * 2^1074
+  obtain ⟨m', k', hm', hk', hrep⟩ : ∃ m' k', m' < 2 ^ 53 ∧ k' ≤ 2045 ∧ n * 2 ^ 1074 = m' * 2 ^ k' := by
+    by_cases hneg : e < 0
+    · have e1 : e.toNat = 0 := by omega
+      rw [e1, Nat.pow_zero, Nat.mul_one] at hn
+      have hpos : 1 ≤ (-e).toNat := by omega
+      have h2 : 2 ≤ 2 ^ (-e).toNat := by
+        have := Nat.pow_le_pow_right (show 2 > 0 by omega) hpos
+        simpa using this
+      have hle : n ≤ m / 2 := by
+        rw [← hn]; exact Nat.div_le_div_left h2 (by omega)
+      exact ⟨n, 1074, by omega, by omega, rfl⟩
+    · have e1 : (-e).toNat = 0 := by omega
+      rw [e1, Nat.pow_zero, Nat.div_one] at hn
+      rcases hm with hm | ⟨hm, he3⟩
+      · refine ⟨m, e.toNat + 1074, hm, by omega, ?_⟩
+        rw [← hn, Nat.pow_add]; ring
+      · refine ⟨2 ^ 52, e.toNat + 1075, by omega, by omega, ?_⟩
+        rw [← hn, hm, show e.toNat + 1075 = e.toNat + 1074 + 1 from rfl, Nat.pow_succ, Nat.pow_add]
+        ring
+  have hex := hR.exact (by omega) m' k' hm' (by rw [hrep]; ring)
+  have hk := hR.no_overflow hex hm' hk'
+  refine ⟨m2, k2, ?_, by rw [hex, hrep], hR.lt, hR.normal_or_sub, hk⟩
+  rw [heq]; simp only [hk, if_true]
+
+/-! ### Float comparisons with zero, on the integer value -/
+
+theorem cmpInt_gt_iff (a b : Int) : (cmpInt a b == Ordering.gt) = true ↔ b < a := by
+  unfold cmpInt
+  by_cases h : a < b
+  · simp [h]; omega
+  · by_cases h2 : a = b
+    · simp [h2]
+    · simp [h, h2]; omega
+
+theorem gt_zero_iff (s : Bool) (m : Nat) (e : Int) :
+    F64.gt (.fin s m e) ZERO_F = true ↔ (s = false ∧ m ≠ 0) := by
+  have hnum : 0 < (F64.fin s m e).num ↔ (s = false ∧ m ≠ 0) := by
+    rw [num_fin]
+    have hp : (0 : Int) < 2 ^ e.toNat := by positivity
+    cases s
+    · simp only [sgn, Bool.false_eq_true, if_false, one_mul, true_and]
+      constructor
+      · intro h hm; subst hm; simp at h
+      · intro hm
+        have : (0 : Int) < m := by exact_mod_cast Nat.pos_of_ne_zero hm
+        exact Int.mul_pos this hp
+    · simp only [sgn, if_true, Bool.true_eq_false, false_and, iff_false, not_lt]
+      have : (0 : Int) ≤ (m : Int) * 2 ^ e.toNat := by positivity
+      linarith
+  have hz : ZERO_F = .fin false 0 0 := by decide
+  have hp : F64.partialCmp (.fin s m e) (.fin false 0 0)
+      = some (cmpInt ((F64.fin s m e).num * (((F64.fin false 0 0).den : Nat) : Int))
+          ((F64.fin false 0 0).num * (((F64.fin s m e).den : Nat) : Int))) := rfl
+  have key : ∀ c : Ordering, ((some c : Option Ordering) == some Ordering.gt) = (c == Ordering.gt) := by
+    intro c; cases c <;> rfl
+  have e1 : (F64.fin false 0 0).num = 0 := by simp [F64.num]
+  have e2 : (F64.fin false 0 0).den = 1 := by simp [F64.den]
+  unfold F64.gt
+  rw [hz, hp, key, cmpInt_gt_iff, e1, e2]
+  simp only [Nat.cast_one, mul_one, zero_mul]
+  exact hnum
+
+theorem units_neg_iff (s : Bool) (m : Nat) (e : Int) :
+    units (.fin s m e) < 0 ↔ (s = true ∧ m ≠ 0) := by
+  rw [units_fin]
+  have hp : (0 : Int) < 2 ^ (e + 1074).toNat := by positivity
+  cases s
+  · simp only [sgn, Bool.false_eq_true, if_false, false_and, iff_false, not_lt, one_mul]
+    positivity
+  · simp only [sgn, if_true, true_and]
+    constructor
+    · intro h hm; subst hm; simp at h
+    · intro hm
+      have : (0 : Int) < m := by exact_mod_cast Nat.pos_of_ne_zero hm
+      have : 0 < (m : Int) * 2 ^ (e + 1074).toNat := Int.mul_pos this hp
+      linarith
+
+theorem units_pos_iff (s : Bool) (m : Nat) (e : Int) :
+    0 < units (.fin s m e) ↔ (s = false ∧ m ≠ 0) := by
+  rw [units_fin]
+  have hp : (0 : Int) < 2 ^ (e + 1074).toNat := by positivity
+  cases s
+  · simp only [sgn, Bool.false_eq_true, if_false, one_mul, true_and]
+    constructor
+    · intro h hm; subst hm; simp at h
+    · intro hm
+      have : (0 : Int) < m := by exact_mod_cast Nat.pos_of_ne_zero hm
+      exact Int.mul_pos this hp
+  · simp only [sgn, if_true, Bool.true_eq_false, false_and, iff_false, not_lt]
+    have : (0 : Int) ≤ (m : Int) * 2 ^ (e + 1074).toNat := by positivity
+    linarith
+
+/-- `x < 0.0` and `x > 0.0` on finite floats are the sign of the integer value. -/
+theorem lt_gt_zero_units (x : F64) (hx : x.isFinite = true) :
+    (F64.lt x ZERO_F = true ↔ units x < 0) ∧ (F64.gt x ZERO_F = true ↔ 0 < units x) := by
+  cases x <;> simp only [F64.isFinite, Bool.false_eq_true] at hx
+  rename_i s m e
+  exact ⟨by rw [lt_zero_iff, units_neg_iff], by rw [gt_zero_iff, units_pos_iff]⟩
+
 end Tera.SoftFloat
